@@ -43,7 +43,7 @@ import (
 )
 
 type c13Op struct {
-	Op      string  `json:"op"` // alloc | hist | rep | samp | flush
+	Op      string  `json:"op"` // alloc | hist | rep | samp | flush | bucket (a bucket handle of hist H) | burst
 	P       int     `json:"p,omitempty"`
 	K       int     `json:"k,omitempty"` // 1 counter, 2 gauge, 3 timer
 	Name    B       `json:"name,omitempty"`
@@ -55,10 +55,12 @@ type c13Op struct {
 	Dur     bool    `json:"dur,omitempty"`
 	Ub      int64   `json:"ub,omitempty"` // bucketUpperBound argument
 	BigN    int     `json:"bign,omitempty"` // hist: BigN duration bounds 7, 14, 21, ... instead of B
+	Pre     bool    `json:"pre,omitempty"`  // multi/shared: made by the main goroutine before the producers start
+	N       int     `json:"n,omitempty"`    // burst: N reports with the values V, V+1, ... through handle / bucket H
 }
 
 type c13Case struct {
-	Kind        string  `json:"kind"` // exact | multi
+	Kind        string  `json:"kind"` // exact | multi | shared (several goroutines report unique values through the same handles)
 	Witness     string  `json:"witness,omitempty"`
 	Proto       string  `json:"proto"`
 	Dests       int     `json:"dests"`
@@ -512,6 +514,10 @@ func c13Run(c *c13Case, waitClock bool) (res c13Result) {
 		us    []int64 // histogram: sorted upper bounds
 		tags  []string
 		model int // index in the model's handle table
+		// a bucket handle (op "bucket"): the histogram it belongs to and what a sample through it must look like
+		b     tally.CachedHistogramBucket
+		hist  *handle
+		bwant *c13Want // nil: the handle is a no-op (no such bucket / other kind's method)
 	}
 	handles := make([]*handle, len(c.Ops))
 	classIDs := map[string]int64{}
@@ -530,8 +536,8 @@ func c13Run(c *c13Case, waitClock bool) (res c13Result) {
 	if nprod < 1 {
 		nprod = 1
 	}
-	evs := make([][]Ev, nprod)      // per producer: the call events, in its order
-	wants := make([][]*c13Want, nprod)
+	evs := make([][]Ev, nprod+1)    // per producer: the call events, in its order; slot nprod: the calls made before the producers start
+	wants := make([][]*c13Want, nprod+1)
 	var classMu sync.Mutex
 
 	// one call; events and expectations are appended to producer p's lists
@@ -649,6 +655,100 @@ func c13Run(c *c13Case, waitClock bool) (res c13Result) {
 		case "flush":
 			r.Flush()
 			evs[p] = append(evs[p], Ev{K: 6, Src: -1})
+		case "bucket":
+			hd := handles[o.H]
+			if hd == nil || hd.op.Op != "hist" {
+				return
+			}
+			hdur := hd.op.Dur || hd.op.BigN > 0
+			bh := &handle{op: o, hist: hd}
+			if o.Dur {
+				bh.b = hd.h.DurationBucket(0, time.Duration(o.Ub))
+			} else {
+				bh.b = hd.h.ValueBucket(0, math.Float64frombits(uint64(o.Ub)))
+			}
+			if o.Dur == hdur {
+				if i := c13Find(hdur, hd.us, o.Ub); i >= 0 {
+					n := len(hd.us) - 1
+					wd := len(strconv.Itoa(n))
+					if wd < 4 {
+						wd = 4
+					}
+					lo := "-infinity"
+					if i > 0 {
+						lo = c.bstr(hdur, hd.us[i-1])
+					}
+					tags := append(append([]string(nil), hd.tags...),
+						bidName+"\x00"+fmt.Sprintf("%0*d", wd, i),
+						bktName+"\x00"+lo+"-"+c.bstr(hdur, hd.us[i]))
+					sort.Strings(tags)
+					bh.bwant = &c13Want{Name: string(hd.op.Name), Type: 1, Tags: tags}
+				}
+			}
+			handles[idx] = bh
+		case "burst":
+			hd := handles[o.H]
+			if hd == nil {
+				return
+			}
+			ws := make([]*c13Want, 0, o.N)
+			switch {
+			case hd.op.Op == "bucket":
+				for i := 0; i < o.N; i++ {
+					hd.b.ReportSamples(o.V + int64(i))
+				}
+				if hd.bwant != nil {
+					for i := 0; i < o.N; i++ {
+						w := *hd.bwant
+						w.P, w.Count = p, o.V+int64(i)
+						ws = append(ws, &w)
+					}
+				}
+			case hd.op.Op == "alloc" && hd.op.K == 1:
+				for i := 0; i < o.N; i++ {
+					hd.c.ReportCount(o.V + int64(i))
+				}
+				for i := 0; i < o.N; i++ {
+					ws = append(ws, &c13Want{P: p, Name: string(hd.op.Name), Type: 1, Tags: hd.tags, Count: o.V + int64(i)})
+				}
+			case hd.op.Op == "alloc" && hd.op.K == 2:
+				for i := 0; i < o.N; i++ {
+					hd.g.ReportGauge(float64(o.V + int64(i)))
+				}
+				for i := 0; i < o.N; i++ {
+					ws = append(ws, &c13Want{P: p, Name: string(hd.op.Name), Type: 2, Tags: hd.tags, Gauge: fbits(float64(o.V + int64(i)))})
+				}
+			case hd.op.Op == "alloc":
+				for i := 0; i < o.N; i++ {
+					hd.t.ReportTimer(time.Duration(o.V + int64(i)))
+				}
+				for i := 0; i < o.N; i++ {
+					ws = append(ws, &c13Want{P: p, Name: string(hd.op.Name), Type: 3, Tags: hd.tags, Timer: o.V + int64(i)})
+				}
+			default:
+				return
+			}
+			tAfter := time.Now().UnixNano()
+			for _, w := range ws {
+				w.TAfter = tAfter
+			}
+			wants[p] = append(wants[p], ws...)
+			for i := 0; i < o.N; i++ {
+				v := o.V + int64(i)
+				if hd.op.Op == "bucket" {
+					f := uint32(0)
+					if !hd.op.Dur {
+						f = 1 << 3
+					}
+					evs[p] = append(evs[p], Ev{K: 26, I: []int64{int64(p + 1), int64(hd.op.H), b2i(hd.op.Dur), hd.op.Ub, v, tAfter}, F: f, Src: -1})
+				} else {
+					f := uint32(0)
+					if hd.op.K == 2 {
+						f, v = 1<<3, fbits(float64(v))
+					}
+					evs[p] = append(evs[p], Ev{K: 21, I: []int64{int64(p + 1), int64(o.H), int64(hd.op.K), v, tAfter}, F: f, Src: -1})
+				}
+			}
 		}
 	}
 
@@ -663,6 +763,11 @@ func c13Run(c *c13Case, waitClock bool) (res c13Result) {
 			do(0, i)
 		}
 	} else {
+		for i := range c.Ops {
+			if c.Ops[i].Pre {
+				do(nprod, i)
+			}
+		}
 		var wg sync.WaitGroup
 		start := make(chan struct{})
 		for p := 0; p < nprod; p++ {
@@ -671,7 +776,7 @@ func c13Run(c *c13Case, waitClock bool) (res c13Result) {
 				defer wg.Done()
 				<-start
 				for i := range c.Ops {
-					if c.Ops[i].P == p {
+					if c.Ops[i].P == p && !c.Ops[i].Pre {
 						do(p, i)
 					}
 				}
@@ -740,7 +845,54 @@ func c13Run(c *c13Case, waitClock bool) (res c13Result) {
 		return a.Name == b.Name && a.Type == b.Type && a.Count == b.Count && a.Gauge == b.Gauge && a.Timer == b.Timer && c13SameStrs(a.Tags, b.Tags)
 	}
 	total := 0
-	for p := 0; p < nprod; p++ {
+	shared := c.Kind == "shared"
+	if shared {
+		// the multiset of emitted values is the multiset reported: exactly once each
+		key := func(w *c13Want) string {
+			return fmt.Sprintf("%q/%d/%d/%x/%d/%q", w.Name, w.Type, w.Count, uint64(w.Gauge), w.Timer, w.Tags)
+		}
+		cnt := map[string]int{}
+		tmax := map[string]int64{}
+		var first *c13Want
+		for p := 0; p < nprod; p++ {
+			total += len(wants[p])
+			for _, w := range wants[p] {
+				cnt[key(w)]++
+				tmax[key(w)] = w.TAfter
+			}
+		}
+		for _, g := range got {
+			k := key(g)
+			cnt[k]--
+			if cnt[k] < 0 && first == nil {
+				first = g
+			}
+			if ta, ok := tmax[k]; ok && (g.Ts < tBefore || g.Ts > ta) {
+				res.fail("timestamp_between_construction_and_call", "%s carries timestamp %d, outside [%d (before NewReporter), %d (after the call)]", c13Show(g), g.Ts, tBefore, ta)
+			}
+		}
+		if first != nil {
+			res.fail("delivered_exactly_once", "emitted %s more often than it was reported (%d values reported through shared handles by %d goroutines, %d emitted)", c13Show(first), total, nprod, len(got))
+		}
+		missing := 0
+		var miss *c13Want
+		for p := 0; p < nprod; p++ {
+			for _, w := range wants[p] {
+				if cnt[key(w)] > 0 {
+					cnt[key(w)]--
+					missing++
+					if miss == nil {
+						miss = w
+					}
+				}
+			}
+		}
+		if missing > 0 {
+			res.Lossy = first == nil
+			res.fail("delivered_exactly_once", "%d of %d reported values were not emitted, e.g. %s", missing, total, c13Show(miss))
+		}
+	}
+	for p := 0; p < nprod && !shared; p++ {
 		total += len(wants[p])
 		var gp []*c13Want
 		for _, g := range got {
@@ -776,7 +928,7 @@ func c13Run(c *c13Case, waitClock bool) (res c13Result) {
 		}
 	}
 	for _, g := range got {
-		if g.P < 0 || g.P >= nprod {
+		if !shared && (g.P < 0 || g.P >= nprod) {
 			res.fail("delivered_exactly_once_in_order", "emitted %s belongs to no producer", c13Show(g))
 		}
 	}
@@ -800,7 +952,11 @@ func c13Run(c *c13Case, waitClock bool) (res c13Result) {
 	// handles are numbered in the model in the order of the concatenated history
 	in := []Ev{optEv}
 	mi := 0
+	order := append([]int{nprod}, make([]int, nprod)...)
 	for p := 0; p < nprod; p++ {
+		order[p+1] = p
+	}
+	for _, p := range order {
 		for _, e := range evs[p] {
 			if e.K >= 11 && e.K <= 14 {
 				handles[e.Src].model = mi
@@ -809,7 +965,7 @@ func c13Run(c *c13Case, waitClock bool) (res c13Result) {
 		}
 	}
 	now := tBefore
-	for p := 0; p < nprod; p++ {
+	for _, p := range order {
 		wi := 0
 		for _, e := range evs[p] {
 			e2 := e
@@ -855,7 +1011,11 @@ func c13Run(c *c13Case, waitClock bool) (res c13Result) {
 		free = 1 << 30
 	}
 	res.In, res.Obs = in, obs
-	res.Params = []int64{b2i(nprod == 1), b2i(proto == m3.Binary), tBefore, free, int64(c.Dests), b2i(bflag)}
+	mode := b2i(nprod == 1)
+	if shared {
+		mode = 2
+	}
+	res.Params = []int64{mode, b2i(proto == m3.Binary), tBefore, free, int64(c.Dests), b2i(bflag)}
 	res.SendCoq = true
 	res.BFlag = bflag
 	return
@@ -898,7 +1058,97 @@ var c13Families = [][]map[B]B{
 	{{"k=v": "w"}, {"k": "v=w"}},
 	// the same keys, the same k=v strings, the values exchanged
 	{{"a": "b=c", "a=b": "d"}, {"a": "b=d", "a=b": "c"}},
-	{{"": "=", "=": ""}, {"": "", "=": "="}, {"==": ""}},
+	{{"": "==", "=": ""}, {"": "=", "==": ""}},
+	// maps of equal size whose differing pairs have an EMPTY value (or key) on one side:
+	// a lookup that cannot tell "absent" from "" accepts the wrong cache entry
+	{{"a=": ""}, {"a": "="}},
+	{{"=": ""}, {"": "="}},
+	{{"a=b": "", "k": "v"}, {"a": "b=", "k": "v"}},
+	{{"a=": "", "b=": ""}, {"a": "=", "b": "="}, {"a=": "", "b": "="}},
+	{{"": "a=b"}, {"=a": "b"}},
+	{{"x=": "", "y": ""}, {"x": "=", "y": ""}},
+}
+
+// every ordered pair of distinct maps of every family: the first allocation
+// fills the cache entry, the second one must not be served from it
+func c13Directed() []c13Case {
+	var out []c13Case
+	k := 0
+	for _, f := range c13Families {
+		for i := range f {
+			for j := range f {
+				if i == j {
+					continue
+				}
+				if c13Class(tagsOf(f[i])) != c13Class(tagsOf(f[j])) {
+					fatal(fmt.Errorf("c13Families: %v and %v do not collide", f[i], f[j]))
+				}
+				k++
+				c := c13Case{Kind: "exact", Proto: []string{"compact", "binary"}[k%2], Dests: 1, Queue: []int{4096, 1, 2}[k%3],
+					Service: "svc", Env: "test", Producers: 1, Immediate: k%2 == 0}
+				c.Ops = []c13Op{
+					{Op: "alloc", K: 1 + k%3, Name: "first", Tags: f[i]},
+					{Op: "alloc", K: 1 + (k+1)%3, Name: "second", Tags: f[j]},
+					{Op: "hist", Name: "h", Tags: f[j], B: []int64{1000, 2000}, Dur: true},
+					{Op: "alloc", K: 1, Name: "again", Tags: f[i]},
+					{Op: "rep", H: 0, V: 1}, {Op: "rep", H: 1, V: 2}, {Op: "samp", H: 2, Ub: 1500, Dur: true, V: 3}, {Op: "rep", H: 3, V: 4},
+				}
+				out = append(out, c)
+			}
+		}
+	}
+	return out
+}
+
+// several goroutines report unique values through the SAME handles at the
+// same time: one counter, gauge and timer handle and one histogram bucket
+// handle, allocated before the goroutines start.  n = values per burst.
+func c13GenShared(r *Rng, n int) c13Case {
+	c := c13Case{Kind: "shared", Producers: r.Range(3, 6)}
+	if n > 200 {
+		c.Producers = r.Range(4, 8)
+	}
+	c13GenConfig(r, &c)
+	if c.Queue < 100 && r.Chance(60) {
+		c.Queue = 4096
+	}
+	if n > 200 {
+		c.Dests, c.MaxPacket = 1, 0
+	}
+	dur := r.Bool()
+	hist := c13Op{Op: "hist", Pre: true, Name: "sh", Tags: map[B]B{"a": "b"}}
+	bucket := c13Op{Op: "bucket", Pre: true, H: 3}
+	if dur {
+		hist.B, hist.Dur = []int64{1000, 2000, 5000}, true
+		bucket.Ub, bucket.Dur = []int64{1000, 2000, 5000, math.MaxInt64}[r.Intn(4)], true
+	} else {
+		hist.B = []int64{fbits(1), fbits(2.5), fbits(10)}
+		bucket.Ub = []int64{fbits(1), fbits(2.5), fbits(10), fbits(math.MaxFloat64)}[r.Intn(4)]
+	}
+	tags, mode := c13GenTags(r, true)
+	c.Ops = []c13Op{
+		{Op: "alloc", Pre: true, K: 1, Name: "sc", Tags: tags, TagMode: mode},
+		{Op: "alloc", Pre: true, K: 2, Name: "sg", Tags: map[B]B{"k": "v"}},
+		{Op: "alloc", Pre: true, K: 3, Name: "st"},
+		hist, bucket,
+	}
+	hs := []int{0, 1, 2, 4}
+	r0 := r.Intn(4)
+	use := []int{hs[r0]}
+	if n <= 200 || r.Bool() || r0 == 3 {
+		use = append(use, hs[(r0+1+r.Intn(3))%4]) // with the bucket handle always one of the plain handles
+	}
+	for round := 0; round < 2; round++ {
+		for _, h := range use {
+			for p := 0; p < c.Producers; p++ {
+				c.Ops = append(c.Ops, c13Op{Op: "burst", P: p, H: h, N: n, V: int64(p+1)*10000000 + int64(round)*1000000 + int64(h)*100000})
+			}
+		}
+		if round == 0 && r.Chance(40) {
+			c.Ops = append(c.Ops, c13Op{Op: "flush", P: r.Intn(c.Producers)})
+		}
+	}
+	return c
 }
 
 var c13Names = []string{"x", "y", "requests", "", "a.b", "é", "\xff", "name with space", "n=1", "tally", "tally.internal", c13Long, c13Long + "x", c13Long + "y", "long-name-0123456789-0123456789-0123456789-0123456789"}
@@ -1122,12 +1372,13 @@ func c13Class4(c *c13Case, res *c13Result) string {
 func init() {
 	props["C13"] = func(ctx *Ctx) {
 		ctx.Header("M3PipeCorr")
-		ctx.Res.Rule = "case = (reporter options: protocol, 1-3 destinations, queue size, packet size, common tags, bucket tag names, precision; a history of Allocate*/Report*/ReportSamples/Flush calls from 1 (exact) or 2-5 (multi) goroutines, then Close); non-trivial = at least one value reported; distinct by case hash"
+		ctx.Res.Rule = "case = (reporter options: protocol, 1-3 destinations, queue size, packet size, common tags, bucket tag names, precision; a history of Allocate*/Report*/ReportSamples/Flush calls from 1 (exact) or 2-5 (multi) goroutines, then Close); or a shared-handle history (3-6 goroutines reporting unique values in bursts through one counter, gauge, timer and histogram bucket handle); non-trivial = at least one value reported; distinct by case hash"
 		retried, transient := 0, 0
 		bcases, bmulti, reports, datagrams := 0, 0, 0, 0
 		run := func(c *c13Case, waitClock bool) c13Result {
 			res := c13Run(c, waitClock)
-			if res.Fail != "" {
+			// a value emitted more often than reported cannot be UDP loss: no second chance
+			if res.Fail != "" && (res.Lossy || c.Kind != "shared") {
 				retried++
 				res2 := c13Run(c, waitClock)
 				if res2.Fail == "" {
@@ -1145,7 +1396,7 @@ func init() {
 				key = hashOf(c)
 			}
 			term := ""
-			if res.SendCoq && !(witness && res.Fail != "") {
+			if res.SendCoq && res.Reported <= 900 && !(witness && res.Fail != "") {
 				term = gcase(ctx.Res.Evaluations, res.Params, res.In, res.Obs)
 			}
 			ctx.Case(c, term, c13Class4(c, &res), key)
@@ -1210,6 +1461,21 @@ func init() {
 				}
 				one(&c, false)
 			}
+		}
+		if !restrictA {
+			for _, c := range c13Directed() {
+				c := c
+				one(&c, false)
+			}
+		}
+		// shared handles: small histories through the model, large ones by the direct predicate only
+		for i, ns := 0, ctx.N(14, 150); i < ns; i++ {
+			c := c13GenShared(ctx.R, ctx.R.Range(8, 30))
+			one(&c, false)
+		}
+		for i, nb := 0, ctx.N(16, 100); i < nb; i++ {
+			c := c13GenShared(ctx.R, ctx.R.Range(1500, 4000))
+			one(&c, false)
 		}
 		n := ctx.N(260, 5000)
 		for i := 0; i < n; i++ {
